@@ -119,6 +119,7 @@ func (c *Conversation) End() (toSend []ValidMessage, err error) {
 		toSend, _, err = c.createSerializedDataMessage(nil, messageFlagIgnoreUnreadable, []tlv{{tlvType: tlvTypeDisconnected}})
 	}
 	c.lastMessageStateChange = time.Time{}
+	c.ake.wipe(true)
 	c.ake = nil
 	c.msgState = plainText
 	defer c.signalSecurityEventIf(previousMsgState == encrypted, GoneInsecure)
